@@ -198,7 +198,11 @@ FINDINGS = {'F8': _f8}
 def fixed_cases(tier):
     w = dict(kind='exact_gbp_B', attrs=['c', 'a', 'bb'], shape=[2, 2, 2], cls='junction_tree', cliques=[('c', 'a'), ('c', 'bb')],
              total=1.0, scale=1.0, sweeps=120, ncalls=1, damping=0.5, pot_seed=11)
-    return [('witness:F8', w)]
+    # F12 (repaired): duplicated region under another attribute order made the convex oracle overflow
+    f12 = dict(kind='norm_rg_convex', attrs=['bb', 'd4', 'g', 'c'], shape=[2, 3, 2, 2], cls='hyper',
+               cliques=[('d4', 'c', 'g'), ('d4', 'c'), ('g', 'c'), ('bb', 'c', 'g')], total=1000.0, scale=3.0, sweeps=600, ncalls=1,
+               damping=0.2, pot_seed=1)
+    return [('witness:F8', w), ('fixed:F12', f12)]
 
 
 TECHNIQUE = 'runtime monitoring: post-condition on the pseudo-marginals of the real RegionGraph / FactorGraph oracles (normalisation always; equality with a brute-force joint on junction-tree clique sets and tree factor graphs)'
